@@ -20,7 +20,7 @@ from math import pi, isclose
 from typing import Union
 
 from numpy import integer, ndarray, floating
-from sympy import Symbol
+from sympy import Symbol, srepr
 
 
 ONE_QUBIT_GATES = {"H", "X", "Y", "Z", "S", "T", "RX", "RY", "RZ", "PHASE"}
@@ -134,11 +134,14 @@ class Gate(dict):
 
         mystr = f"Gate(name='{self.name}'"
         for attr in ["target", "control"]:
-            if self.__getattribute__(attr) or isinstance(self.__getattribute__(attr), int):
+            if self.__getattribute__(attr) is not None:
                 mystr += f", {attr}={self.__getattribute__(attr)}"
         if self.__getattribute__("parameter") != "":
             parameter = self.__getattribute__('parameter')
-            mystr += f", parameter='{parameter}'" if isinstance(parameter, str) else f", parameter={parameter}"
+            if isinstance(parameter, Symbol):
+                mystr += f", parameter=sympy.{srepr(parameter)}"
+            else:
+                mystr += f", parameter='{parameter}'" if isinstance(parameter, str) else f", parameter={parameter}"
         if self.is_variational:
             mystr += ", is_variational=True"
         mystr += ")"
